@@ -1752,6 +1752,18 @@ fn ref_eval(b: &[u8], sem: Sem, n: u32, nnodes: usize, svo: &[u32]) -> Option<Ve
             if sem == Sem::ZeroSup && (c0 < 0 || c1 < 0) {
                 return None;
             }
+            // A node line whose child tests the same or a higher variable has no reference
+            // meaning (a variable would be decided twice on one path). The importer may reject
+            // such a file, or - when its reduction rule removes the offending node, e.g. a ZBDD
+            // node with an empty then-child - build the diagram of the remaining lines: no verdict.
+            for c in [c0, c1] {
+                if let N::I(cv, _, _) = &nodes[c.unsigned_abs() as usize - 1] {
+                    let crank = svo.iter().position(|x| x == cv)?;
+                    if crank <= vi {
+                        return None;
+                    }
+                }
+            }
             nodes.push(N::I(v, c0, c1));
         }
     }
